@@ -367,5 +367,59 @@ func RBumpWalk(c *core.Ctx) {
 	})
 	if n == 0 {
 		c.Anchor("the descent loop of finalOptimize")
+		return
 	}
+	// A lazy loop that sits inside an atomic group cannot be extended by a failure outside the group: it stays at its
+	// minimum, so the positions of its run are NOT all tried and must not be skipped.  The arm that steps through an
+	// Atomic therefore has to record that fact in a variable which the lazy-loop condition tests.
+	var atomicFlagSet []types.Object
+	var lazyCond ast.Expr
+	ast.Inspect(fd.Body, func(x ast.Node) bool {
+		ifs, ok := x.(*ast.IfStmt)
+		if !ok {
+			return true
+		}
+		mentionsKind := func(e ast.Expr, name string) bool {
+			found := false
+			ast.Inspect(e, func(y ast.Node) bool {
+				if id, ok := y.(*ast.Ident); ok && id.Name == name {
+					found = true
+				}
+				return !found
+			})
+			return found
+		}
+		if mentionsKind(ifs.Cond, "NtAtomic") && !mentionsKind(ifs.Cond, "NtOnelazy") {
+			for _, st := range ifs.Body.List {
+				if as, ok := st.(*ast.AssignStmt); ok && len(as.Lhs) == 1 {
+					if id, ok := as.Lhs[0].(*ast.Ident); ok {
+						if obj := info.ObjectOf(id); obj != nil {
+							if bt, ok := obj.Type().Underlying().(*types.Basic); ok && bt.Info()&types.IsBoolean != 0 {
+								atomicFlagSet = append(atomicFlagSet, obj)
+							}
+						}
+					}
+				}
+			}
+		}
+		if mentionsKind(ifs.Cond, "NtOnelazy") || mentionsKind(ifs.Cond, "NtSetlazy") {
+			lazyCond = ifs.Cond
+		}
+		return true
+	})
+	if lazyCond == nil {
+		c.Anchor("the lazy-loop condition of the bump-along walk")
+		return
+	}
+	tested := false
+	for _, obj := range atomicFlagSet {
+		ast.Inspect(lazyCond, func(y ast.Node) bool {
+			if id, ok := y.(*ast.Ident); ok && info.ObjectOf(id) == obj {
+				tested = true
+			}
+			return true
+		})
+	}
+	c.Check(tested, "finalOptimize / a lazy loop inside an Atomic gets no bump-along marker", lazyCond.Pos(),
+		"the arm that steps through an Atomic records nothing that the lazy-loop condition tests: a lazy loop at the start of an atomic group stays at its minimum (failures outside the group cannot extend it), so the positions inside its run have not been tried when UpdateBumpalong lets the scan skip them ((?>a+?b*)c on \"aac\")")
 }
